@@ -2,6 +2,7 @@ package sim
 
 import (
 	"fmt"
+	"sort"
 	"testing"
 	"time"
 
@@ -263,6 +264,12 @@ func famSnapCfgRace(t *testing.T, seed int64, steps int) *Cluster {
 	c.Apply(L, 0)
 	c.Settle("client")
 	c.Drive(300*time.Millisecond, nil, func() bool { return ln.FSM.Waiting() > 0 }) // the FSM goroutine is inside Apply
+	// a backlog of committed commands queues up behind it
+	for i := 0; i < int(seed/4)%3; i++ {
+		c.Apply(L, 0)
+		c.Settle("client")
+	}
+	c.Drive(60*time.Millisecond, nil, nil)
 	c.UserSnapshot(L)
 	c.Settle("client")
 	cmds := []string{"addvoter", "demote", "remove", "addvoter"}
@@ -431,6 +438,74 @@ func famPreVoteTerm(t *testing.T, seed int64, steps int) *Cluster {
 	c.dropPendingFrom(B)
 	c.dropPendingFrom(C)
 	_ = ok
+	c.converge(600 * time.Millisecond)
+	return c
+}
+
+// famLeaseIso: the leader keeps talking to non-voters (and possibly to a minority of the voters) while the
+// other voters are cut off: it must give up leadership within twice the lease timeout (C13); with a majority
+// of the voters still answering it must stay.
+func famLeaseIso(t *testing.T, seed int64, steps int) *Cluster {
+	opt := DefaultOptions(seed)
+	opt.Family = "leaseiso"
+	opt.LeaseCheck = true
+	switch seed % 3 {
+	case 0:
+		opt.Servers = []string{"n1", "n2", "n3", "n4", "n5"}
+		opt.Initial = map[string]string{"n1": "V", "n2": "V", "n3": "V", "n4": "N", "n5": "N"}
+	case 1:
+		opt.Servers = []string{"n1", "n2", "n3", "n4"}
+		opt.Initial = map[string]string{"n1": "V", "n2": "V", "n3": "V", "n4": "N"}
+	default:
+		opt.Servers = []string{"n1", "n2", "n3", "n4", "n5", "n6"}
+		opt.Initial = map[string]string{"n1": "V", "n2": "V", "n3": "V", "n4": "V", "n5": "V", "n6": "N"}
+	}
+	c := NewCluster(t, opt)
+	c.Bootstrap()
+	c.StartAll()
+	L := c.WaitLeader(2 * time.Second)
+	if L == "" {
+		return c
+	}
+	c.Apply(L, 0)
+	c.Settle("client")
+	c.RunQuiet(80*time.Millisecond, 2*time.Millisecond)
+	if c.Leader() != L {
+		c.converge(500 * time.Millisecond)
+		return c
+	}
+	var voters []string
+	for id, s := range opt.Initial {
+		if s == "V" && id != L {
+			voters = append(voters, id)
+		}
+	}
+	sort.Strings(voters)
+	c.Rng.Shuffle(len(voters), func(i, j int) { voters[i], voters[j] = voters[j], voters[i] })
+	// cut the leader off from so many voters that it keeps (seed even) exactly one short of / (seed odd) exactly a majority
+	quorum := (len(voters)+1)/2 + 1
+	keep := quorum - 2 // other voters it still reaches: one short of a majority (itself included)
+	if seed%2 == 1 {
+		keep = quorum - 1
+	}
+	for i, v := range voters {
+		if i >= keep {
+			c.Net.SetBlocked(L, v, true)
+		}
+	}
+	c.Tr.Emit("part", "", M{"op": "cutvoters", "a": L, "blocked": c.blockedJSON()})
+	// fine ticks so that the step-down bound can be judged; the non-voters keep answering
+	end := time.Now().Add(6 * opt.Lease)
+	for time.Now().Before(end) {
+		c.DeliverAll(300)
+		c.Tick(time.Duration(1+c.Rng.Intn(3)) * time.Millisecond)
+	}
+	if seed%2 == 1 {
+		// a majority of the voters kept answering all the time: the leader must still be the leader
+		c.Tr.Emit("assertleader", L, M{"term": c.byID[L].Raft.CurrentTerm()})
+	}
+	c.Net.HealAll()
+	c.Tr.Emit("part", "", M{"op": "heal", "blocked": c.blockedJSON()})
 	c.converge(600 * time.Millisecond)
 	return c
 }
